@@ -335,6 +335,9 @@ def run(repo, rep):
     rep.trust('python ast of geodepy/constants.py; abstract evaluation of Transformation.__init__/__neg__/__add__ and iers2trans (sv/symval.py)')
     rep.trust('tolerances of the chain rule: published rounding 0.1 mm / 0.01 ppb / 0.01 mas (x 1.5 for a triple), year of 365.25 days')
     rep.assume('dates are modelled by their proleptic Gregorian ordinal; round(x, 8) of a literal is folded exactly')
+    # re-referencing, negating and unit conversion depend on the set and the epoch given, not on earlier calls
+    from . import common
+    common.state_rule(repo, rep, [('geodepy.constants', 'Transformation.__add__'), ('geodepy.constants', 'Transformation.__neg__'), ('geodepy.constants', 'iers2trans')])
     cat = fold_catalogue(repo, ev)
     rep.extra['catalogue_entries'] = len(cat)
     label_rules(repo, rep, cat)
